@@ -2,7 +2,7 @@
    force field and any number of steps; on a harmonic surface it conserves a shadow energy exactly, which bounds the
    error of the logged total energy uniformly in the number of steps. *)
 From Coq Require Import Reals List Lra Lia.
-From MV Require Import Ops RInst Vec Hop HopP Models MD.
+From MV Require Import Ops RInst Vec Hop HopP Models MD TrigP.
 Import ListNotations.
 Open Scope R_scope.
 
@@ -142,4 +142,37 @@ Proof.
   intros N. pose proof (harmonic_energy_error_bounded 0 0 1 1 (/ 2) N 1 0 0 ltac:(lra) ltac:(lra) ltac:(lra)) as H.
   cbv zeta in H. rewrite hE_val in H. rewrite hE_val.
   eapply Rle_trans; [exact H|]. right. field.
+Qed.
+
+(* ---- one pass against the exact flow: local error of third order ---- *)
+Lemma Rabs_lin2 a b p q A B : Rabs p <= A -> Rabs q <= B -> Rabs (a * p + b * q) <= Rabs a * A + Rabs b * B.
+Proof.
+  intros Hp Hq. eapply Rle_trans; [apply Rabs_triang|]. rewrite !Rabs_mult.
+  apply Rplus_le_compat; apply Rmult_le_compat_l; try apply Rabs_pos; assumption.
+Qed.
+
+Theorem harmonic_step_local_error c mu w dt x v t :
+  0 < mu -> 0 < w -> 0 <= w * dt <= 1 ->
+  let th := w * dt in
+  exists x1 v1, md_harm_step ROps [c] [[mu * (w * w)]] [mu] dt ([x], [v], t) = ([x1], [v1], t + dt)
+    /\ Rabs (x1 - (c + (x - c) * cos th + v / w * sin th)) <= Rabs (x - c) * (th ^ 4 / 24) + Rabs (v / w) * (th ^ 3 / 6)
+    /\ Rabs (v1 - (v * cos th - w * (x - c) * sin th)) <= Rabs v * (th ^ 4 / 24) + Rabs (w * (x - c)) * (th ^ 3 / 4).
+Proof.
+  intros Hmu Hw Hth th.
+  assert (mu <> 0) as Hmu0 by (intro; lra). assert (w <> 0) as Hw0 by (intro; lra).
+  rewrite (harm_step_1d c (mu * (w * w)) mu dt x v t Hmu0).
+  eexists; eexists; split; [reflexivity|].
+  assert (dt = th / w) as Edt by (unfold th; field; exact Hw0).
+  assert (0 <= th <= 1) as Hth' by (unfold th; lra). clearbody th.
+  destruct (sin_bounds th Hth') as [SL SU]. destruct (cos_bounds th Hth') as [CL CU].
+  assert (0 <= th ^ 3) as H3 by (apply pow_le; lra).
+  assert (0 <= th ^ 4) as H4 by (apply pow_le; lra).
+  set (Cs := cos th) in *. set (Sn := sin th) in *. set (u := x - c).
+  split.
+  - match goal with |- Rabs ?e <= _ =>
+      replace e with (u * (1 - th ^ 2 / 2 - Cs) + v / w * (th - Sn)) by (unfold u; rewrite Edt; field; split; assumption) end.
+    apply Rabs_lin2; apply Rabs_le; lra.
+  - match goal with |- Rabs ?e <= _ =>
+      replace e with (v * (1 - th ^ 2 / 2 - Cs) + w * u * (Sn - (th - th ^ 3 / 4))) by (unfold u; rewrite Edt; field; split; assumption) end.
+    apply Rabs_lin2; apply Rabs_le; lra.
 Qed.
